@@ -91,4 +91,255 @@ theorem C12_compact_reads {s s' : Lsm} {cd : CompactDef} {d n now' now ts : Nat}
   · exact absurd hk hnot
   · exact C12_compact_reads_Lmax h hv hl hc hk hdp hs hts hnow
 
+/-! ## known finding F1: L0 → L0 may drop a tombstone that still shadows an older L0 table -/
+
+def C12_f1State : Lsm :=
+  { mem := [], imm := [],
+    levels := [[{ ents := [⟨[1], 1, 0, 0, 0, [42]⟩] }, { ents := [⟨[1], 2, 1, 0, 0, []⟩] }], []] }
+def C12_f1Cd : CompactDef :=
+  { thisLevel := 0, nextLevel := 0, top := [1], bot := [], outSizes := [], dropPrefixes := [] }
+def C12_f1State' : Lsm :=
+  { mem := [], imm := [], levels := [[{ ents := [⟨[1], 1, 0, 0, 0, [42]⟩] }], []] }
+
+/-- F1: the statement of `C12_compact_reads` is FALSE for L0 → L0. The older L0 table (index 0) is
+    not part of the compaction; `hasOverlap` looks only at levels `≥ 1`, so the delete marker
+    `1@2` is dropped and the deleted value `1@1` becomes visible again. -/
+theorem C12_L0L0_resurrects :
+    ∃ (s s' : Lsm) (cd : CompactDef) (d n now' now ts : Nat) (k : Bytes),
+      LsmInv s ∧ VerBound s ∧ Layered s ∧ CompactOk s cd ∧ IsL0L0 s cd ∧ cd.dropPrefixes = [] ∧
+      s.compact cd d n now' = some s' ∧ d ≤ ts ∧ now' ≤ now ∧
+      visible now (s'.get k ts) ≠ visible now (s.get k ts) :=
+  ⟨C12_f1State, C12_f1State', C12_f1Cd, 5, 1, 0, 0, 9, [1], by decide, by decide, by decide, by decide, by decide,
+    rfl, by lsm_decide, by decide, by decide, by decide⟩
+
+example : visible 0 (C12_f1State.get [1] 9) = none ∧
+    visible 0 (C12_f1State'.get [1] 9) = some ⟨[1], 1, 0, 0, 0, [42]⟩ := by decide
+
+/-! ## known finding F2: `replaceTables` re-sorts L0 by `Smallest` -/
+
+def C12_f2State : Lsm :=
+  { mem := [], imm := [],
+    levels := [[{ ents := [⟨[2], 1, 0, 0, 0, [10]⟩] },
+                { ents := [⟨[1], 2, 0, 0, 0, [0]⟩, ⟨[2], 1, 0, 0, 0, [11]⟩] },
+                { ents := [⟨[3], 1, 0, 0, 0, [0]⟩] }], []] }
+def C12_f2Cd : CompactDef :=
+  { thisLevel := 0, nextLevel := 0, top := [2], bot := [], outSizes := [1], dropPrefixes := [] }
+def C12_f2State' : Lsm :=
+  { mem := [], imm := [],
+    levels := [[{ ents := [⟨[1], 2, 0, 0, 0, [0]⟩, ⟨[2], 1, 0, 0, 0, [11]⟩] },
+                { ents := [⟨[2], 1, 0, 0, 0, [10]⟩] },
+                { ents := [⟨[3], 1, 0, 0, 0, [0]⟩] }], []] }
+
+/-- F2: with a duplicated internal key `2@1` in two L0 tables (values 10 in the older, 11 in the
+    newer table) an L0 → L0 compaction of an unrelated table re-sorts L0 by `Smallest`, the older
+    table moves behind the newer one and the read returns the stale value. -/
+theorem C12_L0_order_scrambled :
+    ∃ (s s' : Lsm) (cd : CompactDef) (d n now ts : Nat) (k : Bytes),
+      LsmInv s ∧ VerBound s ∧ Layered s ∧ CompactOk s cd ∧ IsL0L0 s cd ∧ cd.dropPrefixes = [] ∧
+      s.compact cd d n now = some s' ∧ d ≤ ts ∧
+      visible now (s'.get k ts) ≠ visible now (s.get k ts) :=
+  ⟨C12_f2State, C12_f2State', C12_f2Cd, 0, 1, 0, 5, [2], by decide, by decide, by decide, by decide, by decide,
+    rfl, by lsm_decide, by decide, by decide⟩
+
+example : C12_f2State.get [2] 5 = some ⟨[2], 1, 0, 0, 0, [11]⟩ ∧
+    C12_f2State'.get [2] 5 = some ⟨[2], 1, 0, 0, 0, [10]⟩ := by decide
+
+
+/-- L0 → L0, positive part: the compaction preserves every read at `ts ≥ discardTs` provided
+    (i) no internal key occurs in two different L0 tables (then the order of L0 tables, which
+    `replaceTables` scrambles, is irrelevant — cf. F2) and (ii) no L0 table left out of the
+    compaction shares a user key with a delete/expiry marker the compaction drops (cf. F1). -/
+theorem C12_compact_reads_L0L0 {s s' : Lsm} {cd : CompactDef} {d n now' now ts : Nat} {k : Bytes}
+    (h : LsmInv s) (hv : VerBound s) (hl : Layered s) (hc : CompactOk s cd) (hk : IsL0L0 s cd)
+    (hdist : TblsDistinct (cdThisT s cd))
+    (hex : ∀ e ∈ LL.topEnts s cd, deletedOrExpired e.emeta e.exp now' = true →
+      e ∉ (compactOutput s cd d n now').1 →
+      ∀ t ∈ removeIdx (cdThisT s cd) cd.top, ∀ x ∈ t.ents, x.key ≠ e.key)
+    (hdp : cd.dropPrefixes = []) (hs : s.compact cd d n now' = some s') (hts : d ≤ ts) (hnow : now' ≤ now) :
+    visible now (s'.get k ts) = visible now (s.get k ts) :=
+  LL.compact_reads_l0l0 h hv hl hc hk hdist hex hdp hs hts hnow
+
+/-- L0 → L0 of ALL of L0 (nothing is left out, so (ii) is vacuous) -/
+theorem C12_compact_reads_L0L0_all {s s' : Lsm} {cd : CompactDef} {d n now' now ts : Nat} {k : Bytes}
+    (h : LsmInv s) (hv : VerBound s) (hl : Layered s) (hc : CompactOk s cd) (hk : IsL0L0 s cd)
+    (hdist : TblsDistinct (cdThisT s cd)) (hall : cd.top = List.range (cdThisT s cd).length)
+    (hdp : cd.dropPrefixes = []) (hs : s.compact cd d n now' = some s') (hts : d ≤ ts) (hnow : now' ≤ now) :
+    visible now (s'.get k ts) = visible now (s.get k ts) := by
+  apply C12_compact_reads_L0L0 h hv hl hc hk hdist _ hdp hs hts hnow
+  intro e _ _ _ t ht
+  rw [hall, LL.removeIdx_range] at ht
+  simp at ht
+
+/-- F2, positive part: if no internal key occurs in two different L0 tables, the order of the L0
+    tables does not affect any read (`levelHandler.get` keeps a strict maximum). -/
+theorem C12_L0_order_irrelevant_distinct {s : Lsm} {l0 l0' : List Tbl} {rest : List (List Tbl)}
+    (h : LsmInv s) (hl : s.levels = l0 :: rest) (hp : l0'.Perm l0) (hd : TblsDistinct l0) (k : Bytes) (ts : Nat) :
+    ({ s with levels := l0' :: rest } : Lsm).get k ts = s.get k ts := by
+  have h0 := h.level (i := 0) (tbls := l0) (by rw [hl]; rfl)
+  have hinv2 : LsmInvW ({ s with levels := l0' :: rest } : Lsm) := by
+    refine ⟨h.1, h.2.1, ?_, ?_⟩
+    · rintro ⟨i, tbls⟩ hpz
+      have hi := (LL.mem_zipIdx _ _ _).mp hpz
+      cases i with
+      | zero =>
+        simp at hi; subst hi
+        exact ⟨fun t ht => (h0.1 t (hp.subset ht)).2, by simp⟩
+      | succ j =>
+        simp at hi
+        exact LL.levelOk_weaken (h.level (i := j + 1) (by rw [hl]; simpa using hi))
+    · intro e he
+      apply h.2.2.2 e
+      rw [LL.mem_allEntries] at he ⊢
+      rcases he with he | he | ⟨i, tbls, t, hi, ht, het⟩
+      · exact .inl he
+      · exact .inr (.inl he)
+      · right; right
+        cases i with
+        | zero =>
+          simp at hi; subst hi
+          exact ⟨0, l0, t, by rw [hl]; rfl, hp.subset ht, het⟩
+        | succ j =>
+          simp at hi
+          exact ⟨j + 1, tbls, t, by rw [hl]; simpa using hi, ht, het⟩
+  rw [LL.get_eq_newestLE hinv2, LL.get_eq_newestLE (LL.lsmInv_weaken h), LL.newestLE_allEntries,
+    LL.newestLE_allEntries, hl]
+  have hmem : LL.memEnts ({ s with levels := l0' :: rest } : Lsm) = LL.memEnts s := rfl
+  rw [hmem]
+  simp only [LL.readLv]
+  rw [LL.nl_chunk0_perm hp.symm hd]
+
+/-! non-vacuity of the L0 → L0 statements: a compaction of all of L0 that drops a tombstone -/
+def C12_l0allState : Lsm :=
+  { mem := [⟨[1], 9, 0, 0, 0, [9]⟩], imm := [],
+    levels := [[{ ents := [⟨[1], 1, 0, 0, 0, [42]⟩, ⟨[2], 1, 0, 0, 0, [7]⟩] }, { ents := [⟨[1], 2, 1, 0, 0, []⟩] }], []] }
+def C12_l0allCd : CompactDef :=
+  { thisLevel := 0, nextLevel := 0, top := [0, 1], bot := [], outSizes := [1], dropPrefixes := [] }
+def C12_l0allState' : Lsm :=
+  { mem := [⟨[1], 9, 0, 0, 0, [9]⟩], imm := [], levels := [[{ ents := [⟨[2], 1, 0, 0, 0, [7]⟩] }], []] }
+
+example : LsmInv C12_l0allState ∧ VerBound C12_l0allState ∧ Layered C12_l0allState ∧
+    CompactOk C12_l0allState C12_l0allCd ∧ IsL0L0 C12_l0allState C12_l0allCd ∧
+    TblsDistinct (cdThisT C12_l0allState C12_l0allCd) ∧
+    C12_l0allCd.top = List.range (cdThisT C12_l0allState C12_l0allCd).length ∧
+    C12_l0allState.compact C12_l0allCd 5 1 0 = some C12_l0allState' := by
+  refine ⟨by decide, by decide, by decide, by decide, by decide, by decide, by decide, by lsm_decide⟩
+
+
+/-! non-vacuity of `C12_compact_reads`: one concrete instance per kind of compaction -/
+
+/-- L0 → L2 with a non-empty bottom run; the tombstone `1@3` and the version below it are dropped
+    (`hasOverlap = false`) -/
+def C12_exBase : Lsm :=
+  { mem := [], imm := [],
+    levels := [[{ ents := [⟨[1], 3, 1, 0, 0, []⟩] }, { ents := [⟨[1], 5, 0, 0, 0, [5]⟩] }], [],
+               [{ ents := [⟨[1], 1, 0, 0, 0, [1]⟩] }, { ents := [⟨[3], 1, 0, 0, 0, [3]⟩] }]] }
+def C12_exBaseCd : CompactDef :=
+  { thisLevel := 0, nextLevel := 2, top := [0], bot := [0], outSizes := [], dropPrefixes := [] }
+def C12_exBase' : Lsm :=
+  { mem := [], imm := [],
+    levels := [[{ ents := [⟨[1], 5, 0, 0, 0, [5]⟩] }], [], [{ ents := [⟨[3], 1, 0, 0, 0, [3]⟩] }]] }
+
+example : LsmInv C12_exBase ∧ VerBound C12_exBase ∧ Layered C12_exBase ∧ CompactOk C12_exBase C12_exBaseCd ∧
+    IsL0Lbase C12_exBase C12_exBaseCd ∧ C12_exBase.compact C12_exBaseCd 4 1 0 = some C12_exBase' ∧
+    visible 0 (C12_exBase'.get [1] 4) = visible 0 (C12_exBase.get [1] 4) := by
+  refine ⟨by decide, by decide, by decide, by decide, by decide, by lsm_decide, by decide⟩
+
+/-- L1 → L2 -/
+def C12_exLi : Lsm :=
+  { mem := [], imm := [],
+    levels := [[], [{ ents := [⟨[1], 2, 0, 0, 0, [2]⟩] }],
+               [{ ents := [⟨[1], 1, 0, 0, 0, [1]⟩] }, { ents := [⟨[2], 1, 0, 0, 0, [7]⟩] }]] }
+def C12_exLiCd : CompactDef :=
+  { thisLevel := 1, nextLevel := 2, top := [0], bot := [0], outSizes := [2], dropPrefixes := [] }
+def C12_exLi' : Lsm :=
+  { mem := [], imm := [],
+    levels := [[], [], [{ ents := [⟨[1], 2, 0, 0, 0, [2]⟩, ⟨[1], 1, 0, 0, 0, [1]⟩] }, { ents := [⟨[2], 1, 0, 0, 0, [7]⟩] }]] }
+
+example : LsmInv C12_exLi ∧ VerBound C12_exLi ∧ Layered C12_exLi ∧ CompactOk C12_exLi C12_exLiCd ∧
+    IsLiLnext C12_exLi C12_exLiCd ∧ C12_exLi.compact C12_exLiCd 0 1 0 = some C12_exLi' := by
+  refine ⟨by decide, by decide, by decide, by decide, by decide, by lsm_decide⟩
+
+/-- Lmax → Lmax: the tombstone `1@2` of the last level is dropped -/
+def C12_exMax : Lsm :=
+  { mem := [], imm := [],
+    levels := [[], [{ ents := [⟨[1], 2, 1, 0, 0, []⟩] }, { ents := [⟨[2], 1, 0, 0, 0, [7]⟩] }]] }
+def C12_exMaxCd : CompactDef :=
+  { thisLevel := 1, nextLevel := 1, top := [0], bot := [1], outSizes := [1], dropPrefixes := [] }
+def C12_exMax' : Lsm :=
+  { mem := [], imm := [], levels := [[], [{ ents := [⟨[2], 1, 0, 0, 0, [7]⟩] }]] }
+
+example : LsmInv C12_exMax ∧ VerBound C12_exMax ∧ Layered C12_exMax ∧ CompactOk C12_exMax C12_exMaxCd ∧
+    IsLmax C12_exMax C12_exMaxCd ∧ C12_exMax.compact C12_exMaxCd 5 1 0 = some C12_exMax' := by
+  refine ⟨by decide, by decide, by decide, by decide, by decide, by lsm_decide⟩
+
+/-- a read after a write: the new entry is seen first (`memPut` replaces an equal internal key) -/
+theorem C12_put_reads {s : Lsm} (h : LsmInv s) {e : Ent} (he : 0 < e.ver) (k : Bytes) (ts : Nat) :
+    (s.putEnt e).get k ts = newestLE (e :: s.allEntries) k ts :=
+  LL.put_get h he k ts
+
+/-! ## snapshot stability: a read at `ts` is unaffected by everything that happens afterwards -/
+
+/-- one step of the storage engine as seen by a reader at timestamp `ts` (wall clock `≤ now`):
+    a later commit, a memtable flush, or a compaction (other than L0 → L0, see F1/F2) whose
+    `discardTs` does not exceed `ts`. -/
+inductive LsmStep (ts now : Nat) : Lsm → Lsm → Prop
+  | put (s : Lsm) (e : Ent) (hts : ts < e.ver) (hmax : e.ver ≤ maxU64)
+      (hnew : ∀ x ∈ s.allEntries, x.key = e.key → x.ver ≤ e.ver) : LsmStep ts now s (s.putEnt e)
+  | flush (s : Lsm) (id : Nat) : LsmStep ts now s (s.flush id)
+  | compact (s s' : Lsm) (cd : CompactDef) (d n now' : Nat) (hc : CompactOk s cd) (hnot : ¬ IsL0L0 s cd)
+      (hdp : cd.dropPrefixes = []) (hs : s.compact cd d n now' = some s')
+      (hcut : ∀ new0, splitSizes cd.outSizes (compactOutput s cd d n now').1 = some new0 →
+        CutsAtKeyChange (withIds new0 cd.outIds))
+      (hts : d ≤ ts) (hnow : now' ≤ now) : LsmStep ts now s s'
+
+inductive LsmRun (ts now : Nat) : Lsm → Lsm → Prop
+  | refl (s : Lsm) : LsmRun ts now s s
+  | step {s s' s'' : Lsm} (r : LsmRun ts now s s') (st : LsmStep ts now s' s'') : LsmRun ts now s s''
+
+/-- everything the theorems of C01 / C12 / C14 need of a state -/
+def LsmGood (s : Lsm) : Prop := LsmInv s ∧ VerBound s ∧ Layered s ∧ s.imm = []
+
+instance (s : Lsm) : Decidable (LsmGood s) := by unfold LsmGood; infer_instance
+
+theorem C12_step_stable {ts now : Nat} {s s' : Lsm} (hg : LsmGood s) (st : LsmStep ts now s s') :
+    LsmGood s' ∧ ∀ k, visible now (s'.get k ts) = visible now (s.get k ts) := by
+  obtain ⟨h, hv, hl, himm⟩ := hg
+  cases st with
+  | put e hts hmax hnew =>
+    have hpos : 0 < e.ver := by omega
+    refine ⟨⟨LL.put_inv h hpos, LL.put_verBound hv hmax, LL.put_layered hl hnew, himm⟩, ?_⟩
+    intro k
+    rw [LL.put_get h hpos, LL.newestLE_cons, C01_get_spec h]
+    have : LL.cand k ts e = none := by
+      unfold LL.cand; rw [if_neg]; rintro ⟨_, hle⟩; omega
+    rw [this]; rfl
+  | flush id =>
+    refine ⟨⟨C14_flush_inv h id, ?_, C14_flush_layered hl himm id, ?_⟩, ?_⟩
+    · exact fun x hx => hv x ((LL.mem_allEntries_flush s id x).mp hx)
+    · rcases LL.flush_eq_self_or s id with he | ⟨_, _, _, _, he⟩ <;> rw [he] <;> exact himm
+    · intro k; rw [C12_flush_reads_noimm h himm]
+  | compact _ cd d n now' hc hnot hdp hs hcut hts hnow =>
+    refine ⟨⟨C14_compact_inv h hv hc hs hcut, C14_compact_verBound h hv hc hs, C14_compact_layered h hl hc hnot hs, ?_⟩, ?_⟩
+    · obtain ⟨_, _, rfl⟩ := LL.compact_some hs; exact himm
+    · intro k; exact C12_compact_reads h hv hl hc hnot hdp hs hts hnow
+
+/-- Snapshot stability: starting from a good state, after any number of later commits, flushes and
+    compactions (`discardTs ≤ ts`) every read at `ts` returns what it returned before, and the
+    state is still good. This is C01 + C12 + C14 composed. -/
+theorem C12_snapshot_stable {ts now : Nat} {s s' : Lsm} (hg : LsmGood s) (r : LsmRun ts now s s') :
+    LsmGood s' ∧ ∀ k, visible now (s'.get k ts) = visible now (s.get k ts) := by
+  induction r with
+  | refl => exact ⟨hg, fun _ => rfl⟩
+  | step _ st ih =>
+    obtain ⟨hg', hr⟩ := ih
+    obtain ⟨hg'', hr'⟩ := C12_step_stable hg' st
+    exact ⟨hg'', fun k => (hr' k).trans (hr k)⟩
+
+/-- and what it returns is the specification's answer computed on the *original* state -/
+theorem C12_snapshot_spec {ts now : Nat} {s s' : Lsm} (hg : LsmGood s) (r : LsmRun ts now s s') (k : Bytes) :
+    visible now (s'.get k ts) = s.specGet k ts now := by
+  rw [(C12_snapshot_stable hg r).2 k, C01_read_spec hg.1]
+
+example : LsmGood C12_exBase := by decide
+
 end Badger
